@@ -88,7 +88,7 @@ def rule_model_partition(prog, rep):
         toks = " ".join(body).split()
         got = [_num(t_) for t_ in toks]
         rows_seen |= {len(ln.split()) for ln in body if ln.strip()}
-        if got != vals:
+        if len(got) != len(vals) or any(g_ is None or not _close(g_, v_, rel=6e-6, abs_=None) for g_, v_ in zip(got, vals)):
             bad = (n, f"{len(got)} value tokens {got[:8]}{'...' if len(got) > 8 else ''} for the {n} values {vals[:8]}{'...' if n > 8 else ''}")
             break
     r.add("partition", bad is None, "for every list length n = 0..44 the cube holds exactly the n values, once, in order" if bad is None else
